@@ -53,11 +53,7 @@ Theorem C11_read_loops :
   (forall fd amount orc r evs orc', ReadOrThrow fd amount orc = (r, evs, orc') ->
      r <> Fuel /\ r <> Abort /\ (any_failed evs = true -> r = Exn) /\
      (forall data, r = Val data -> any_failed evs = false /\ data = concat (delivered fd evs) /\ ~ In [] (delivered fd evs))).
-Proof.
-  split; intros fd amount orc r evs orc' E.
-  - unfold ReadOrEOF in E. destruct (read_or_eof_spec fd _ _ _ _ _ _ _ (Nat.lt_succ_diag_r _) E) as (H1 & H2 & H3 & H4 & _). auto.
-  - unfold ReadOrThrow in E. destruct (read_or_throw_spec fd _ _ _ _ _ _ _ (Nat.lt_succ_diag_r _) E) as (H1 & H2 & H3 & H4). auto.
-Qed.
+Proof. exact read_loops_proof. Qed.
 Print Assumptions C11_read_loops.
 
 
@@ -136,7 +132,7 @@ Print Assumptions C11_iostream_io_error_nonzero_exit0_all_accepted.
 Theorem C11_iostream_tools_are_checked :
   conf_checked conf_process_unicode /\ conf_checked conf_mmhsum /\
   conf_checked conf_gigaword_unwrap /\ conf_checked conf_order_independent_hash.
-Proof. unfold conf_checked; cbv; intuition congruence. Qed.
+Proof. exact iostream_tools_are_checked_proof. Qed.
 Print Assumptions C11_iostream_tools_are_checked.
 
 (* Wait(): for EVERY 16-bit wait status, the value returned from main is non-zero as a process
@@ -174,10 +170,7 @@ Theorem C11_premature_eof_nonzero :
   forall wr needs lines t feeder_ok,
   (lines < fold_right Nat.add 0 needs)%nat ->
   wrapper_status wr needs lines t feeder_ok = Signaled SIGABRT.
-Proof.
-  intros wr needs lines t fok H. apply premature_eof_nonzero_proof.
-  rewrite collect_spec. rewrite (proj2 (Nat.leb_gt _ _)) by exact H. reflexivity.
-Qed.
+Proof. exact premature_eof_lines_proof. Qed.
 Print Assumptions C11_premature_eof_nonzero.
 
 (* a failed write to the child's stdin => non-zero *)
